@@ -129,6 +129,9 @@ def respOf (status : Nat) (si : ScriptInfo) : Resp :=
     jsonOk := si.jsonClass
     jsonGet := jsonGetById }
 
+/-- `u`: the library decides what a client sees of this script; the model predicts nothing for the run -/
+def truthUnknown (truth : String) : Bool := truth == "u"
+
 def replyOf (truth : String) (script : String) : Reply :=
   match natAfter "rbx" truth, natAfter "rb" truth, natAfter "r" truth with
   | some st, _, _ => .brokenBody st .other
@@ -144,8 +147,12 @@ def parseSize (s : String) : Option (Option (Nat × SizeOp)) :=
   if s == "-" || s == "" then some none
   else match s.splitOn ":" with
     | [op, v] => do
-      let o : SizeOp := match op with | "eq" => .eq | "lt" => .lt | "gt" => .gt | _ => .unknown
-      pure (some (← v.toNat?, o))
+      -- the operator names of the input lines and how the configuration spells them (harness: `opSpelling`);
+      -- which arm of `switch a.Size.Op` a spelling selects is `sizeOpOfString` (tied to the source by Bridge.C19.sizeRejects_eq)
+      let spelled : String := match op with
+        | "eq" => "eq" | "lt" => "lt" | "gt" => "gt" | "eqs" => "=" | "lts" => "<" | "gts" => ">"
+        | "eqw" => "eq" | "ltw" => "lt" | "gtw" => "gt" | "ge" => ">=" | _ => "~"
+      pure (some (← v.toNat?, sizeOpOfString spelled))
     | _ => none
 
 def parseNamed (s : String) : Option (List (String × List Char)) :=
@@ -214,6 +221,7 @@ def parsePP (tok : String) : Option (Option PP) :=     -- `some none` = "tpl" ma
   match tok.splitOn "~" with
   | ["-"] => some none
   | ["tpl"] => some none
+  | ["U"] => some none
   | ["H", hdr] => some (some (.varHeader [{ header := hdr, mods := some [] }]))
   | ["H", hdr, mods] => (parseMods mods).map fun ms => some (.varHeader [{ header := hdr, mods := ms }])
   | ["A", st, pat, hdr, size] => do
@@ -244,26 +252,48 @@ def implRes (impl : String) : String × Nat :=
   let ikv := parseKV impl
   (getS ikv "res", (getN? ikv "n").getD 0)
 
+/-- the gRPC status code the gun sees for a scripted call kind (harness: `grpcKindMeta`): an undecodable response
+message is `Internal`, a well-formed one with foreign fields (or no bytes at all) is `OK`, one beyond the client's
+receive limit is `ResourceExhausted`, a silent server ends in `DeadlineExceeded` -/
+def grpcKindCode (kind : String) (arg : Nat) : Option Nat :=
+  match kind with
+  | "ok" => some 0
+  | "code" => some arg
+  | "details" => some arg
+  | "hang" => some 4
+  | "garbage" => some 13
+  | "foreign" => some 0
+  | "empty" => some 0
+  | "big" => some 8
+  | _ => none
+
 def handleRun (kv : List (String × String)) (impl : String) : String × String :=
   let (res, n) := implRes impl
   let noCfg : AutoTagCfg := { enabled := false, uriElements := 2, noTagOnly := true }
   match getS kv "gun" with
   | "http" | "connect" | "http2" =>
     let h2 := getS kv "gun" == "http2"
-    let lacks := getS kv "tgt" == "tls1"
-    let dead := getS kv "tgt" == "dead"
+    let tgt := getS kv "tgt"
+    -- what the peer negotiates: `tls1` answers the ALPN offer `h2` with the alert "no application protocol";
+    -- `tls2` negotiates h2 mutually; a plain-TCP target (`live`) breaks the TLS handshake (an ordinary error)
+    let facts : H2Facts := { alpnAlert := tgt == "tls1", tls := if tgt == "tls2" then some ("h2", true) else none }
+    let noConn := tgt == "dead" || (h2 && tgt != "tls2")
     let reqs := splitList (getS kv "reqs") ","
+    let truths := reqs.map fun r => match r.splitOn ":" with | [_, t] => t | _ => "f"
     let cycle : List GunShot := (List.range reqs.length).map fun i =>
       let (script, truth) := match (reqs[i]!).splitOn ":" with
         | [s, t] => (s, t)
         | _ => ("", "f")
-      let reply := if dead then Reply.noResponse .other else replyOf truth script
-      .http h2 lacks noCfg s!"r{i}" (i + 1) s!"/p/{i}" reply
+      let reply := if noConn then Reply.noResponse .other else replyOf truth script
+      .http h2 facts noCfg s!"r{i}" (i + 1) s!"/p/{i}" reply
     let m := (getN? kv "m").getD 1
     let shots := replicate m cycle
     let run := instanceRun (shots.map GunShot.run)
     let fatal := shots.any GunShot.documentedFatal
-    (fmtRun run "panic:not-http2", Spec.C19.judgeRun fatal shots.length shots.length shots.length res n)
+    let v := Spec.C19.judgeRun fatal shots.length shots.length shots.length res n
+    -- not predicted: a script whose fate the library decides; how many instances get a shot in before a failing pool stops
+    if (!noConn && truths.any truthUnknown) || (fatal && (getN? kv "inst").getD 1 > 1) then ("-", v)
+    else (fmtRun run "panic:not-http2", v)
   | "http/scenario" =>
     let parsed := (splitList (getS kv "steps") ";").mapM fun st =>
       match st.splitOn "," with
@@ -280,19 +310,24 @@ def handleRun (kv : List (String × String)) (impl : String) : String × String 
       let shotsN := (getN? kv "n").getD 1
       let shots := List.replicate shotsN (GunShot.scenario "scn" steps)
       let run := instanceRun (shots.map GunShot.run)
-      (fmtRun run "panic:unexpected", Spec.C19.judgeRun false shotsN shotsN (shotsN * steps.length) res n)
+      let v := Spec.C19.judgeRun false shotsN shotsN (shotsN * steps.length) res n
+      -- not predicted: a step whose request is built from a variable of an earlier RESPONSE (the rendered request may
+      -- or may not be sendable), a script whose fate the library decides
+      let stepToks := (splitList (getS kv "steps") ";").map fun st => st.splitOn ","
+      let unknown := getS kv "tgt" != "dead" && stepToks.any fun f =>
+        match f with
+        | [_, _, truth, pps] => truthUnknown truth || (splitList pps "+").contains "U"
+        | _ => false
+      if unknown then ("-", v) else (fmtRun run "panic:unexpected", v)
   | "grpc" =>
     let parsed := (splitList (getS kv "reqs") ",").mapM fun r =>
       match r.splitOn ":" with
       | [kind, code] => do
         let c ← code.toNat?
         match kind with
-        | "ok" => some (GrpcOutcome.invoked 0)
-        | "code" => some (.invoked c)
-        | "hang" => some (.invoked 4)
-        | "nomethod" => some .unknownMethod
+        | "nomethod" => some GrpcOutcome.unknownMethod
         | "badpayload" => some .badPayload
-        | _ => none
+        | _ => (grpcKindCode kind c).map .invoked
       | _ => none
     match parsed with
     | none => ("-", "fail:driver:unparsable reqs")
@@ -317,8 +352,10 @@ def handleRun (kv : List (String × String)) (impl : String) : String × String 
           | "nomethod" => .unknownMethod
           | "badpayload" => .badPayload
           | _ => .callable
-        let reply : GrpcReply := { code := if kind == "code" then cd else if kind == "hang" then 4 else 0
-                                   payloadHas := fun p => isInfix p.toList "Hello verif!".toList }
+        let code ← if k == .callable then grpcKindCode kind cd else some 0
+        -- `out.String()`: the service's greeting; a message of foreign fields only does not contain the patterns used
+        let reply : GrpcReply := { code := code
+                                   payloadHas := fun p => kind == "ok" && isInfix p.toList "Hello verif!".toList }
         pure (({ tag := tag, kind := k, asserts := asserts } : GrpcCallCfg), reply)
       | _ => none
     match parsed with
